@@ -81,3 +81,30 @@ Proof.
   { vm_compute. now left. }
   specialize (H 1 (462296, 0) Hin 5). vm_compute in H. assert (C : 1 = 2) by (apply H; now left). discriminate C.
 Qed.
+
+(* ---------- existential forms ---------- *)
+
+Theorem same_engine_v0_refuted_ex :
+  exists (ops : list cop) (k : key) (n : nat) (v : value),
+    w_last (ops ++ [CBuildCancelV0 k n]) = Some (None, true) /\
+    w_last (ops ++ [CBuildCancelV0 k n; CPlain (OBuild k)]) = Some (Some v, false) /\
+    w_clean (ops ++ [CBuildCancelV0 k n; CPlain (OBuild k)]) k <> Some v.
+Proof.
+  exists s1_prefix, 1, 14%nat, (891684, 0).
+  split; [vm_compute; reflexivity|]. split; [vm_compute; reflexivity|].
+  intros H. vm_compute in H. discriminate H.
+Qed.
+
+Theorem discovered_window_refuted_ex :
+  exists (ops : list cop) (k d : key) (n : nat) (x : N) (v : value),
+    w_last (ops ++ [CBuildCancel k n]) = Some (None, true) /\
+    w_last (ops ++ [CBuildCancel k n; CPlain (OSet d x); CPlain (OBuild k)]) = Some (Some v, false) /\
+    w_clean (ops ++ [CBuildCancel k n; CPlain (OSet d x); CPlain (OBuild k)]) k <> Some v /\
+    w_last (ops ++ [CBuildCancel k n; CPlain (OSet d x); CPlain (ORestart true); CPlain (OBuild k)]) = Some (Some v, false) /\
+    w_clean (ops ++ [CBuildCancel k n; CPlain (OSet d x); CPlain (ORestart true); CPlain (OBuild k)]) k <> Some v.
+Proof.
+  exists s2_prefix, 1, 5, 15%nat, 7, (462296, 0).
+  split; [vm_compute; reflexivity|]. split; [vm_compute; reflexivity|].
+  split; [intros H; vm_compute in H; discriminate H|]. split; [vm_compute; reflexivity|].
+  intros H. vm_compute in H. discriminate H.
+Qed.
